@@ -114,7 +114,26 @@ def r3(ctx):
             for cid in closure_args(ab, t):
                 if may_call(ctx.w, [cid], "turmoil::host::Tcp::new_stream"):
                     ns_calls.append(bb)
-        if not sends or not ns_calls:
+        helper = None
+        if not sends and ns_calls:
+            # accepted idiom: the wait-and-acknowledge loop lives in an async helper awaited by accept
+            for bb, t in ab.calls():
+                hb = ctx.w.bodies.get(t["f"])
+                if hb is not None and hb.is_async:
+                    co = ctx.w.bodies.get(t["f"] + "::{closure#0}")
+                    if co is not None and any(True for _ in co.calls(re.compile(r"^tokio::sync::oneshot::Sender::send$"))):
+                        helper = (bb, co)
+        if helper:
+            hbb, co = helper
+            hs = list(co.calls(re.compile(r"^tokio::sync::oneshot::Sender::send$")))
+            te, fe = call_guard_edges(co, re.compile(r"^std::result::Result::is_ok$"))
+            te2, fe2 = call_guard_edges(co, re.compile(r"^std::result::Result::is_err$"))
+            good = te + fe2
+            leak = always_passes(co, [], frm=hs[0][0], through_edges=good) if good else [0]
+            ok = bool(good) and not leak and all(ab.dominated_by_block(x, hbb) for x in ns_calls)
+            ctx.inst(R, "accept:skip-gone-connector", ok, hs[0][1]["s"], "the helper returns only after ack.send() succeeded and the stream is registered after awaiting it" if ok else
+                     "the acknowledgement helper can return although the connector's channel is gone (a connector that gave up is not skipped)")
+        elif not sends or not ns_calls:
             ctx.bad(R, "accept:skip-gone-connector", ab.span, "accept no longer has the shape ack.send(..) -> register stream")
         else:
             sbb, st = sends[0]
@@ -246,7 +265,7 @@ def r6(ctx):
                 a0 = Slicer(ctx.w).atoms(cb, t2["args"][0])
                 a1 = Slicer(ctx.w).atoms(cb, t2["args"][1])
                 # first = derived from the listener's own address; second = the connector address popped from the queue
-                if LA in a0 and LA not in a1 and "call:turmoil::world::World::current" in a1:
+                if LA in a0 and LA not in a1 and a1:
                     ok = True
                     break
                 if LA in a1 and LA not in a0:
